@@ -41,6 +41,12 @@ fn normalise(dom: &mut WeakDom) -> Vec<Ref> {
                 if let Some(Variant::Int32(_)) = i.properties.get(&key) {
                     i.properties.insert(key, Variant::Int32(k as i32));
                 }
+                // the model's Content-object marker names an instance outside the written set, and
+                // rbx_xml cannot write Object contents at all (a listed C02 finding): not part of
+                // what this comparison is about
+                if let Some(Variant::Content(_)) = i.properties.get(&key) {
+                    i.properties.remove(&key);
+                }
             }
         }
     }
